@@ -9,16 +9,60 @@ def FAB(na, nb, nsym, **kw):
     d = {'NA': na, 'NB': nb, 'FA_NSYM': nsym}
     d.update(kw); return d
 
+def edges(n, nsym, pred):
+    """mask of the candidate edges (q,a,r) of an n-state automaton over nsym letters that satisfy pred; index (q*nsym+a)*n+r"""
+    m = 0
+    for q in range(n):
+        for a in range(nsym):
+            for r in range(n):
+                if pred(q, a, r): m |= 1 << ((q * nsym + a) * n + r)
+    return hex(m)
+
+# OP: 0 Union, 1 UnionDisjointStates, 2 Intersection (two operands A, B); 3 Reverse, 4 RemoveUnreachableStates,
+#     5 RemoveUselessStates, 6 GetCandidateTree (one operand A; NB is unused).  Shapes as in checks.d/C09.py.
+UNARY, BINARY = (3, 4, 5, 6), (0, 1, 2)
+UN_QUICK = [
+  FAB(2, 1, 2),                                             # 12 bits: two states, letters a,b, everything free
+  FAB(3, 1, 1),                                             # 15 bits: three states, one letter
+  FAB(2, 1, 3),                                             # 16 bits: two states, three letters
+]
+UN_THOROUGH = UN_QUICK + [
+  FAB(3, 1, 2, A_EDGES=edges(3, 2, lambda q, a, r: r != 0), A_START=0, A_STARTFIX=1),                     # 12+3: three states, two letters, no edge into the start state 0
+  FAB(3, 1, 2, A_EDGES=edges(3, 2, lambda q, a, r: a == 0 or q == r), A_START=6, A_STARTFIX=1, A_FIN=6),   # 12+4: all a-edges, b only as self loops; state 0 start, others free; finals of 1,2 free
+  FAB(4, 1, 1, A_EDGES=edges(4, 1, lambda q, a, r: r != 0), A_START=0, A_STARTFIX=1),                     # 12+4: four states, one letter
+  FAB(3, 1, 2, A_START=0, A_STARTFIX=1, A_FIN=0, A_FINFIX=4),                                              # 18 bits: all edges of three states x two letters, 0 start, 2 final
+]
+BIN_QUICK = [
+  FAB(1, 2, 2), FAB(2, 1, 2),                               # 4+12 / 12+4 bits
+  FAB(2, 2, 1),                                             # 8+8: one letter
+  FAB(1, 1, 3),                                             # 5+5: three letters
+]
+BIN_THOROUGH = BIN_QUICK + [
+  FAB(2, 2, 2, A_EDGES=edges(2, 2, lambda q, a, r: a == 0), A_START=0, A_STARTFIX=1, B_START=0, B_STARTFIX=1),   # 6+10: A uses letter a only; starts {0}; finals free
+  FAB(2, 2, 2, A_START=0, A_STARTFIX=1, A_FIN=0, A_FINFIX=2, B_START=0, B_STARTFIX=1, B_FIN=0, B_FINFIX=3),     # 8+8: all 16 edges; A: 0 start, 1 final; B: 0 start, both final
+  FAB(2, 2, 2, A_START=0, A_STARTFIX=3, A_FIN=0, A_FINFIX=2, B_START=0, B_STARTFIX=1, B_FIN=0, B_FINFIX=2),     # 8+8: A with two start states (product states with only one start component), finals {1}
+  FAB(2, 3, 1, A_START=0, A_STARTFIX=1, B_START=0, B_STARTFIX=1, B_FIN=4),                                       # 6+10: one letter, 2x3 states
+]
+def ops(univ, which, **kw):
+    return [dict(u, OP=o, **kw) for u in univ for o in which]
+
 CHECKS = {
  'C10': {
   'level': 'model_checking',
-  'explanation': 'x',
-  'bounds': {'quick': 'x', 'thorough': 'x'},
-  'outside': 'x',
+  'explanation': 'ExplicitFiniteAut::Union (with translation maps, as the CLI), UnionDisjointStates, Intersection, Reverse, RemoveUnreachableStates, RemoveUselessStates and GetCandidateTree executed symbolically on every NFA (pair of NFAs) of the universe of the configuration (presence bit per edge, start bit and final bit per state, built through SetStateStart / AddTransition / SetStateFinal with the letters registered in the alphabet); the result is observed at the public observation point DumpToString(serializer, stateDict) with a serializer that decodes the AutDescription back into edge/start/final masks, and its language is compared by an independent subset-construction inclusion oracle (both directions) with the language the property demands: L(A) u L(B), L(A) n L(B) (textbook product on masks), the mirror language (transposed masks), L(A) for the two trimming operations (plus: every state left is reachable / useful), and for GetCandidateTree: subset of L(A) and empty iff L(A) is empty. Operands are checked to be unchanged. The thorough tier also applies the CLI switches -p / -s (trimming the operands first).',
+  'bounds': {'quick': 'one-operand operations: all NFAs with 2 states x 2 letters (12 bits), 3 states x 1 letter (15), 2 states x 3 letters (16); two-operand operations: all pairs with 1+2 and 2+1 states x 2 letters, 2+2 x 1 letter, 1+1 x 3 letters (10..16 bits); every start/final combination (empty word, several start states, product states with one start component)',
+             'thorough': 'as quick plus 15..18-bit sub-universes of 3 states x 2 letters and 4 states x 1 letter (one operand), 16-bit sub-universes of 2+2 states x 2 letters and 2+3 states x 1 letter (two operands), and the quick universes with operands trimmed first by RemoveUnreachableStates / RemoveUselessStates (-p / -s)'},
+  'outside': 'more than 4 states per operand (6 product states), more than 3 letters, start symbols (every start state gets the same start symbol x; which start symbol a result prints is not checked), the Timbuk text produced by the real serializer, the translation maps returned by Union / Intersection, Complement/Reduce (not implemented)',
+  'assumptions': ['start symbols (the nullary Timbuk rules that make a state a start state) carry no language meaning'],
   'harnesses': [
-    {'name': 'fa_ops', 'src': 'harness/C10/fa_ops.cc', 'tus': FA_OPS,
-     'configs': {'quick': [FAB(2, 1, 1, OP=4)], 'thorough': [FAB(2, 1, 1, OP=4)]},
-     'selftest_config': FAB(2, 1, 1, OP=4), 'selftests': ['VS_SELFTEST_1']},
+    # one entry per operation: own witness twin, own seeded fault (VS_SELFTEST_1 is operation specific), own translation validation
+    {'name': name, 'src': 'harness/C10/fa_ops.cc', 'tus': FA_OPS,
+     'configs': {'quick': ops(UN_QUICK if op in UNARY else BIN_QUICK, (op,)),
+                 'thorough': ops(UN_THOROUGH if op in UNARY else BIN_THOROUGH, (op,))
+                             + (ops(BIN_QUICK, (op,), PRUNE=1) + ops(BIN_QUICK, (op,), PRUNE=2) if op in BINARY else [])
+                             + (ops(UN_QUICK[:2], (op,), PRUNE=2) if op in (3, 6) else []) + (ops(UN_QUICK[:2], (op,), PRUNE=1) if op == 6 else [])},
+     'selftest_config': FAB(2, 1, 2, OP=op) if op in UNARY else FAB(1, 2, 2, OP=op), 'selftests': ['VS_SELFTEST_1']}
+    for op, name in [(0, 'union'), (1, 'union_disjoint'), (2, 'isect'), (3, 'reverse'), (4, 'unreach'), (5, 'useless'), (6, 'witness')]
   ],
  },
 }
